@@ -12,6 +12,7 @@ from ...datatype import datatype, AllowArbConfig
 from ...module import Module
 from ...instance import Instance
 from ... import Slice, Concat, NoConn, PortRef
+from ...portref import ordered
 from ...bundle import (
     AnonymousBundle,
     BundleInstance,
@@ -192,7 +193,7 @@ class BundleFlattener(ElabPass):
             THE_CACHE.flat_bundle_ports[entry] = flat
 
         # Replace connections to any connected instances
-        for portref in list(bundle_inst._connected_ports):
+        for portref in ordered(bundle_inst._connected_ports):
             self.replace_bundle_conn(
                 inst=portref.inst, portname=portref.portname, flat=flat
             )
@@ -431,7 +432,7 @@ class BundleFlattener(ElabPass):
         bref.resolved = resolved = self.resolve_path(flat_root, Path(path))
 
         if isinstance(resolved, BundleScope):
-            for connected_port in list(bref._connected_ports):
+            for connected_port in ordered(bref._connected_ports):
                 self.replace_bundle_conn(
                     inst=connected_port.inst,
                     portname=connected_port.portname,
